@@ -925,16 +925,31 @@ func (c *EvalCtx) call(e ECall) EV {
 
 func (c *EvalCtx) localVar(name string) EV {
 	fr := c.fr
+	// Several variables of the function may carry the name (shadowing in an inner block): local(x) is the one declared
+	// first in the source, whatever order the maps below are walked in.
+	var best *ssa.Alloc
+	var bestEV EV
+	consider := func(a *ssa.Alloc, ev func() EV) {
+		if best == nil || a.Pos() < best.Pos() {
+			best = a
+			bestEV = ev()
+		}
+	}
 	for a, t := range c.st.regs {
 		if a.Comment == name && a.Parent() == fr.Fn {
-			return EV{T: t, Ty: a.Type().(*types.Pointer).Elem()}
+			a, t := a, t
+			consider(a, func() EV { return EV{T: t, Ty: a.Type().(*types.Pointer).Elem()} })
 		}
 	}
 	// boxed locals
 	for v, val := range fr.env {
 		if a, ok := v.(*ssa.Alloc); ok && a.Comment == name && val.Loc != nil {
-			return EV{T: fr.load(val.Loc), Ty: a.Type().(*types.Pointer).Elem()}
+			a, val := a, val
+			consider(a, func() EV { return EV{T: fr.load(val.Loc), Ty: a.Type().(*types.Pointer).Elem()} })
 		}
+	}
+	if best != nil {
+		return bestEV
 	}
 	var have []string
 	for v := range fr.env {
